@@ -167,6 +167,11 @@ func smallValue(r *gen.R, layout string) *rfc8907.Value {
 }
 
 // randomValue: random RFC-valid value with lengths over the whole width.
+// remAddrSpellings: legal texts for rem_addr that are IP addresses in non-canonical (and
+// canonical) spelling; the field is opaque text to the protocol.
+var remAddrSpellings = []string{"192.0.2.7", "192.000.002.007", "2001:db8::1", "2001:0db8:0000:0000:0000:0000:0000:0001", "2001:db8:0:0:0:0:0:1", "2001:DB8::1",
+	"::ffff:192.0.2.7", "0:0:0:0:0:ffff:c000:207", "::1", "0000:0000:0000:0000:0000:0000:0000:0001", "fe80::1%eth0", "[2001:db8::1]:49", "192.0.2.7:49", " 192.0.2.7", "010.001.001.001"}
+
 func randomValue(r *gen.R, layout string) *rfc8907.Value {
 	v := rfc8907.NewValue(layout)
 	randomInts(r, v)
@@ -183,6 +188,10 @@ func randomValue(r *gen.R, layout string) *rfc8907.Value {
 			n = r.Intn(40)
 		}
 		v.Texts[tf.Name] = fillText(r, layout, tf.Name, n, at, r.Chance(1, 3))
+		if tf.Name == "rem_addr" && r.Chance(1, 6) {
+			// what devices really put there: address text, in whatever spelling they like
+			v.Texts[tf.Name] = []byte(remAddrSpellings[r.Intn(len(remAddrSpellings))])
+		}
 	}
 	if rfc8907.HasArgs(layout) {
 		lo, hi := argLenBounds(layout)
